@@ -86,7 +86,7 @@ theorem InvD.setStream {full : Bool} {g : Ghost} {d d' : Int} {s : Streams} {x x
                  rw [this, hk]
     · rfl
   refine ⟨⟨by rw [hkeys]; exact h.keys.nodup, ?_, h.keys.idsNodup, h.keys.idsIdNodup, h.keys.idsLt⟩,
-    h.wI32, h.aI32, h.cons, h.w0, h.wHi, h.tHi, h.hiMax, ?_, h.initHi, h.initMax, ?_⟩
+    h.wI32, h.aI32, h.cons, h.w0, h.wI, h.tHi, h.hiMax, ?_, h.initHi, h.initMax, ?_⟩
   · intro y' hy'
     have : y'.key ∈ (s.setStream x').store.slab.map (·.key) := List.mem_map_of_mem hy'
     rw [hkeys] at this
@@ -127,7 +127,8 @@ theorem InvD.setConn {full : Bool} {g : Ghost} {d d' : Int} {s : Streams} (h : I
     (f : Recv → Recv) (hinit : (f s.recv).initWindowSz = s.recv.initWindowSz)
     (hw : inI32 (f s.recv).flow.windowSize.val = true) (ha : inI32 (f s.recv).flow.available.val = true)
     (hcons : (f s.recv).flow.available.val + ((f s.recv).inFlightData : Int) = (g.target : Int))
-    (hw0 : 0 ≤ (f s.recv).flow.windowSize.val) (hwhi : (f s.recv).flow.windowSize.val ≤ (g.hiTarget : Int))
+    (hw0 : 0 ≤ (f s.recv).flow.windowSize.val)
+    (hwhi : (f s.recv).flow.windowSize.val + ((f s.recv).inFlightData : Int) ≤ (g.hiTarget : Int))
     (hsum : (sumInfl s.store.slab : Int) + d' ≤ ((f s.recv).inFlightData : Int)) :
     InvD full g d' (s.modRecv f) :=
   ⟨h.keys, hw, ha, hcons, hw0, hwhi, h.tHi, h.hiMax, hsum, by show (f s.recv).initWindowSz ≤ _; rw [hinit]; exact h.initHi,
